@@ -1147,3 +1147,156 @@ Proof.
 Qed.
 
 End RepSound.
+
+(* ------------------------------------------------------------------------------------------ *)
+(** * NewReplacerData: the summary                                                              *)
+
+Section Summary.
+Variable is_word_char : Z -> bool.
+Variable is_ecma_start : Z -> bool.
+Variable is_ecma_char : Z -> bool.
+Variable env : penv.
+Variable n : Z.
+Hypothesis Henv : env_ok env n.
+
+Notation new_replacer_data := (Replace.new_replacer_data is_word_char is_ecma_start is_ecma_char env).
+Notation rep_spec := (rep_spec is_word_char is_ecma_start is_ecma_char env).
+
+(* Every accepted replacement yields rules that only name existing strings and slots; read back as
+   tokens they are the compiled items of a parse according to the grammar. *)
+Lemma new_replacer_data_spec (rep : list Z) (d : rdata) :
+  new_replacer_data rep = Ok d ->
+  data_ok d n /\
+  exists toks, toks_of d = Some toks /\
+    ((use_e env = true -> ~ In 92 rep) ->
+     exists items, rep_spec rep items /\ toks = compile_items env items []).
+Proof.
+  unfold Replace.new_replacer_data, scan_replacement.
+  destruct (scan_replacement_go is_word_char is_ecma_start is_ecma_char env (S (length rep)) rep) as [children| | |] eqn:E;
+    try discriminate.
+  cbn [bind]. rewrite Z.eqb_refl. cbn [negb]. intros H.
+  destruct (build_rules_spec env n Henv children [] [] [] []) as (d' & Hd1 & Hd2 & Hd3).
+  - eapply scan_replacement_go_wf; [exact Henv|exact E].
+  - reflexivity.
+  - constructor.
+  - rewrite Hd1 in H. inversion H; subst d'. split; [exact Hd3|].
+    eexists. split; [exact Hd2|]. intros Hbs. exists (items_of_nodes children). split; [|reflexivity].
+    eapply scan_replacement_go_sound; [exact Hbs|exact E].
+Qed.
+
+End Summary.
+
+(* concrete replacements (non-vacuity and the $& identity) *)
+Lemma parse_amp (is_word_char is_ecma_start is_ecma_char : Z -> bool) (env : penv) (n : Z) :
+  env_ok env n ->
+  Replace.new_replacer_data is_word_char is_ecma_start is_ecma_char env [36; 38] = Ok amp_data.
+Proof.
+  intros (Hn & Hcaps & _). unfold Replace.new_replacer_data, scan_replacement.
+  cbn [length scan_replacement_go span_dollar Z.eqb Pos.eqb add_to_concatenate].
+  cbn. unfold caps_nonempty, caps_lookup.
+  destruct (pe_caps env) as [l|].
+  - destruct Hcaps as (_ & H0). destruct l as [|kv l]; [discriminate|]. rewrite H0. reflexivity.
+  - reflexivity.
+Qed.
+
+(* ------------------------------------------------------------------------------------------ *)
+(** * The replacement cache is transparent                                                      *)
+
+Section Cache.
+Variable is_word_char : Z -> bool.
+Variable is_ecma_start : Z -> bool.
+Variable is_ecma_char : Z -> bool.
+Variable env : penv.
+
+Notation new_replacer_data := (Replace.new_replacer_data is_word_char is_ecma_start is_ecma_char env).
+Notation get_replacer_data := (Replace.get_replacer_data is_word_char is_ecma_start is_ecma_char env).
+
+(* every cached entry is the parse of its key *)
+Definition cache_coherent (c : cache) : Prop :=
+  Forall (fun kd => new_replacer_data (fst kd) = Ok (snd kd)) c.
+
+Lemma cache_remove_coherent (key : list Z) (c : cache) : cache_coherent c -> cache_coherent (cache_remove key c).
+Proof.
+  unfold cache_coherent. induction c as [|[k d] c IH]; intros H; [constructor|].
+  inversion H; subst. cbn [cache_remove]. destruct (zlist_eqb key k); [assumption|].
+  constructor; [assumption|apply IH; assumption].
+Qed.
+
+Lemma removelast_coherent (c : cache) : cache_coherent c -> cache_coherent (removelast c).
+Proof.
+  unfold cache_coherent. induction c as [|kd c IH]; intros H; [constructor|].
+  inversion H; subst. cbn [removelast]. destruct c; [constructor|].
+  constructor; [assumption|apply IH; assumption].
+Qed.
+
+Lemma cache_lookup_coherent (key : list Z) (c : cache) (d : rdata) :
+  cache_coherent c -> name_assoc key c = Some d -> new_replacer_data key = Ok d.
+Proof.
+  intros Hc Ha. apply name_assoc_In in Ha. unfold cache_coherent in Hc. rewrite Forall_forall in Hc.
+  apply (Hc _ Ha).
+Qed.
+
+Lemma get_replacer_data_transparent (should_cache : bool) (max_size : Z) (rep : list Z) (c : cache) :
+  cache_coherent c ->
+  fst (get_replacer_data should_cache max_size rep c) = new_replacer_data rep /\
+  cache_coherent (snd (get_replacer_data should_cache max_size rep c)).
+Proof.
+  intros Hc. unfold Replace.get_replacer_data.
+  destruct should_cache.
+  - unfold cache_get. destruct (name_assoc rep c) as [d|] eqn:Ea.
+    + pose proof (cache_lookup_coherent _ _ _ Hc Ea) as Hd. cbn [fst snd]. split; [symmetry; exact Hd|].
+      constructor; [exact Hd|apply cache_remove_coherent; exact Hc].
+    + destruct (new_replacer_data rep) as [d| | |] eqn:En; cbn [fst snd]; try (split; [reflexivity|exact Hc]).
+      split; [reflexivity|]. unfold cache_add. rewrite Ea.
+      assert (cache_coherent ((rep, d) :: c)) as Hc' by (constructor; [exact En|exact Hc]).
+      destruct ((0 <? max_size) && (max_size <? zlen ((rep, d) :: c))); [apply removelast_coherent|]; exact Hc'.
+  - destruct (new_replacer_data rep) as [d| | |]; cbn [fst snd]; split; try reflexivity; exact Hc.
+Qed.
+
+End Cache.
+
+(* ------------------------------------------------------------------------------------------ *)
+(** * End to end: Replace(input, replacement, startAt, count)                                   *)
+
+Definition start_ok (tw : list (Z * Z)) (startAt : Z) : Prop :=
+  startAt <= byte_len tw /\ (0 <= startAt -> is_boundary tw startAt).
+
+Section EndToEnd.
+Variable is_word_char : Z -> bool.
+Variable is_ecma_start : Z -> bool.
+Variable is_ecma_char : Z -> bool.
+Variable env : penv.
+Variable n : Z.
+Hypothesis Henv : env_ok env n.
+
+Notation new_replacer_data := (Replace.new_replacer_data is_word_char is_ecma_start is_ecma_char env).
+Notation replace_string := (Replace.replace_string is_word_char is_ecma_start is_ecma_char env).
+
+Lemma replace_string_fold (rtl : bool) (rep : list Z) (d : rdata) (tw : list (Z * Z)) (startAt count : Z) (ms : list mtch) :
+  -1 <= count -> start_ok tw startAt ->
+  wf_matches rtl (runes_of tw) ms -> Forall (fun m => group_count m = n) ms ->
+  new_replacer_data rep = Ok d ->
+  exists toks, toks_of d = Some toks /\
+               replace_string rtl rep tw startAt count ms = Ok (replace_spec rtl ms toks count (runes_of tw)).
+Proof.
+  intros Hc (Hs1 & Hs2) Hwf Hn Hd.
+  destruct (new_replacer_data_spec _ _ _ env n Henv rep d Hd) as (Hok & toks & Ht & _).
+  exists toks. split; [exact Ht|]. unfold Replace.replace_string. rewrite Hd. cbn [bind].
+  eapply replace_data_fold; eauto. apply check_start_ok; assumption.
+Qed.
+
+Lemma replace_string_error (rtl : bool) (rep : list Z) (c : Z) (tw : list (Z * Z)) (startAt count : Z) (ms : list mtch) :
+  new_replacer_data rep = Err c -> replace_string rtl rep tw startAt count ms = Err c.
+Proof. intros H. unfold Replace.replace_string. rewrite H. reflexivity. Qed.
+
+Lemma replace_string_amp (rtl : bool) (tw : list (Z * Z)) (startAt count : Z) (ms : list mtch) :
+  -1 <= count -> start_ok tw startAt ->
+  wf_matches rtl (runes_of tw) ms -> Forall group0_ok ms ->
+  replace_string rtl [36; 38] tw startAt count ms = Ok (runes_of tw).
+Proof.
+  intros Hc (Hs1 & Hs2) Hwf Hg. unfold Replace.replace_string.
+  rewrite (parse_amp _ _ _ env n Henv). cbn [bind].
+  apply replace_amp_identity; try assumption. apply check_start_ok; assumption.
+Qed.
+
+End EndToEnd.
